@@ -12,27 +12,36 @@ import nn_ref_c17 as ref
 
 ID = 'C17'
 LEVEL = 'proof'
-RULE = ('conv1d: full grid batch 1 (and a sample of batch 2), C 1..4 x every divisor as groups x O in {g,2g}, L 1..5 (quick) / 1..7, '
-        'K 1..3, stride 1..3, padding 0..2, dilation 1..2, positive output size, bias on/off, defaults passed as None or as the '
-        'explicit value; conv2d: seeded sample of the same ranges with int / pair / None argument forms; pooling: every '
-        '(H,W) 1..5 (quick) / 1..7, kernel 1..3, stride 1..3, ceil on/off, index functions, window provenance fold, max and avg; '
-        'softmax/softmin every axis of rank 1..4; norms on rank 2..4; linear, bilinear, pairwise_distance, cosine_similarity '
-        'on rank 1..3. integer-valued data compared exactly, float results within 4 ulp(float32) x terms x magnitude. '
-        'non-trivial = parameters not all default')
+RULE = ('witnesses of the 6 known findings; conv1d: full grid batch 1 (plus a sample of batch 2), C 1..4 x every divisor as groups x O in {g,2g}, '
+        'L 1..5 (quick) / 1..7, K 1..3, stride 1..3, padding 0..2, dilation 1..2, positive output size, bias on/off, defaults passed as None '
+        'or as the explicit value, float32 and int element types, plus seeded cases beyond the grid (C<=6, L<=12, K<=5, s<=4, p<=3, d<=3); '
+        'conv2d: seeded sample (700 quick / 15000 thorough) of the same ranges with None / int / pair argument forms; pooling: every (H,W) 1..5 '
+        '(quick, interior thinned 1:3) / 1..7, kernel 1..3, stride 1..3 per axis, ceil on/off, 0..2 leading axes: shape_pool2d, slice_pool2d, window '
+        'provenance fold through view::pool2d, max_pool2d, avg_pool2d; softmax/softmin over every axis (negative too) of rank 1..4; '
+        'batch/layer/instance/group norm on rank 2..4 (every trailing normalized_shape, every divisor as num_groups); linear, bilinear, '
+        'pairwise_distance (default and ord/eps/keepdims forms, broadcast, equal operands), cosine_similarity (every axis, zero vectors) on rank 1..3. '
+        'integer-valued data compared exactly, float results within 4 ulp(float32) x terms x magnitude. non-trivial = parameters not all default')
 EXHAUSTIVE = {'quick': True, 'thorough': True}
-ANCHORS = {'NmVerif.NN.convnd': 'view::convnd (index::conv_reshape_input/weight/reduce/bias, conv_pad, conv_expand_spacing, conv_slices)',
-           'NmVerif.NN.shapePool2d / slicePool2d / poolWindow': 'index::shape_pool2d, index::slice_pool2d, view::pool2d_t::operator()',
-           'NmVerif.NN.slidingWindow': 'index::shape_sliding_window, index::sliding_window'}
-ASSUMPTIONS = ['shape_pool2d computes in float32: exact only while (n-k)/s is representable (extents < 2^24)',
+ANCHORS = {'NmVerif.NN.convnd (convWeight, convInput, convCore, convBias, convStride)':
+               'view::convnd / conv1d / conv2d with index::conv_reshape_input, conv_reshape_weight, conv_reshape_reduce, conv_reshape_bias, '
+               'conv_kernel_size, conv_window_axis, conv_sum_axes, conv_expand_spacing, conv_pad, conv_slices (view/convnd.hpp)',
+           'NmVerif.NN.slidingWindowV / expandV / padV / reshapeV / binop / sumAxes / sliceStepV':
+               'index::shape_sliding_window + sliding_window, view/expand.hpp shape_expand + expand, index::shape_pad + pad, reshape, broadcast, reduce, slice as used by convnd',
+           'NmVerif.NN.shapePool2d / slicePool2d / poolWindow / poolFold':
+               'index::shape_pool2d, index::slice_pool2d, view::pool2d_t::operator() (apply_slice + flatten + reducer)'}
+ASSUMPTIONS = ['shape_pool2d and the strided slice compute extents in float32 (ceil/floor of a float quotient): exact only while the quotient is representable (extents < 2^24); the model uses naturals',
+               'k <= n for pooling (the C++ wraps in size_t otherwise; the reference rejects it)',
                'floating-point tolerance (4 ulp x terms) is a harness statement, not a Lean statement',
+               'the conv theorems are stated over integer-valued arrays (Arr Int) for all inputs: an identity of term sets, not a statement about float rounding',
                'PyTorch itself is not available: the reference is lib/nn_ref_c17.py written from the documented formulas']
 PARTIAL = ['conv2d with pair-form arguments (s_h,s_w) / (p_h,p_w) / (d_h,d_w): no theorem (conv2d_eq_code_loop covers None | int forms); model correspondence + oracle only',
            'softmax, softmin, batch/layer/instance/group norm, linear, bilinear, pairwise_distance, cosine_similarity: no Lean theorem (compositions of the C06-C08 pieces over opaque real operations); oracle comparison only',
-           'max/avg pooling: theorems cover output shape and the window element set handed to the reducer; the reduction itself (reduce_maximum / mean) is compared with the oracle only']
+           'max/avg pooling: theorems cover output shape and the window element set handed to the reducer; the reduction itself (reduce_maximum / mean) is compared with the oracle only',
+           'conv*_eq_nested_loop hold on groups = 1 or O = groups, batch 1 (outside: conv1d_groups_counterexample, conv1d_batch_counterexample); conv*_eq_code_loop hold for every groups with the code\'s group assignment o % g']
 MANIFEST = dict(
-    text='Proof of output-shape formulas and term selection of conv/pooling in Lean for all parameters + differential run of every named routine against a nested-loop reference.',
-    note='Lean kernel + propext/Classical.choice/Quot.sound; hand-written model tied to the headers by the correspondence run; float tolerance is the harness\'s.',
-    technique='Lean 4 proofs over the mirrored convnd / pool2d index pipeline + differential correspondence + nested-loop oracle')
+    text='Proof: 15 Lean theorems. conv1d and conv2d: the mirrored view::convnd pipeline (reshape by groups, pad, sliding_window of input and of the dilation-expanded weight, multiply, sum, reshape, bias, strided slice) is defined, has the extent floor((n+2p-d(k-1)-1)/s)+1 and each element is the nested loop over (channel, kernel) terms, for every extent, kernel, stride, padding, dilation, groups and optional bias (None or int forms); equal to the PyTorch loop for groups = 1 or one output channel per group, with kernel-checked counterexamples for the three conv defects found. Pooling: shape_pool2d = PyTorch extents in floor and ceil mode, every window is non-empty, inside the input and equal to the clipped reference window, for any number of leading axes. Tied to the headers by a differential run of conv1d/conv2d/pool2d (model + nested-loop oracle) and of softmax/softmin/4 norms/linear/bilinear/pairwise_distance/cosine_similarity (oracle) on every check.',
+    note='Lean kernel + propext/Classical.choice/Quot.sound; model hand-written, fidelity rests on the correspondence run; softmax/norm/linear routines have no theorem (oracle comparison within 4 ulp x terms); 6 known findings of the unchanged tree (batch > 1, group interleaving, dilation pair order, ceil-mode window outside, max_pool2d initial 0, batch_norm rank).',
+    technique='Lean 4 proofs over the mirrored convnd / pool2d index pipeline (Mathlib ring tactic in lemma files only) + differential correspondence + independent nested-loop NumPy oracle')
 
 H_C1, H_C2A, H_C2B, H_POOL, H_NORM, H_LIN = 'h_c17_conv1d', 'h_c17_conv2d_nb', 'h_c17_conv2d_b', 'h_c17_pool', 'h_c17_norm', 'h_c17_lin'
 
@@ -298,6 +307,18 @@ def gen_conv1d(tier, rng):
                                         c = conv_case(rng, 1, 1, C, g, O, [L], [K], [s], [p], [d], not bias, forms, dt)
                                         if c is not None:
                                             yield c
+    # beyond the property's grid: larger extents / kernels / strides, seeded
+    for t in range(150 if tier == 'quick' else 3000):
+        C = rng.randint(1, 6); g = rng.choice(divisors(C)); O = g * rng.randint(1, 3)
+        L = rng.randint(1, 12); K = rng.randint(1, 5); s_ = rng.randint(1, 4); p_ = rng.randint(0, 3); d_ = rng.randint(1, 3)
+        if ref.conv_out_size(L, K, s_, p_, d_) <= 0:
+            continue
+        key = 'c1r %d %d %d %d %d %d %d %d' % (C, g, O, L, K, s_, p_, d_)
+        forms = (pick_form(key + 's', [s_], 1, False), pick_form(key + 'p', [p_], 0, False), pick_form(key + 'd', [d_], 1, False))
+        c = conv_case(rng, 1, 1, C, g, O, [L], [K], [s_], [p_], [d_], bool(rng.randint(0, 1)), forms, 'f')
+        if c is not None:
+            c.tags = c.tags + ('beyond-grid',)
+            yield c
     # batch 2: the implementation cannot reshape it (known finding) -> a small sample only (each request kills or upsets the harness)
     nb = 6 if tier == 'quick' else 24
     for t in range(nb):
@@ -309,7 +330,7 @@ def gen_conv1d(tier, rng):
 
 
 def gen_conv2d(tier, rng):
-    n = 700 if tier == 'quick' else 6000
+    n = 700 if tier == 'quick' else 15000
     smax = 5 if tier == 'quick' else 7
     made = 0
     seen = set()
